@@ -960,6 +960,8 @@ class Exec:
 
     def binop(s, op, a, b, rv, body, dest_ty):
         if isinstance(a, (Agg, LazyEnum)) or isinstance(b, (Agg, LazyEnum)):
+            for x_ in (a, b):      # only field-less enum values stand for their discriminant; a struct / payload variant in a scalar operation is a harness or model error: fail closed
+                if isinstance(x_, Agg) and x_.fields and x_.ty not in ('Box',): raise Unsupported('binary operation %s on the aggregate %s' % (op, x_.ty))
             a, b = s.disc(a), s.disc(b)
         if (is_sym(a) and z3.is_fp(a)) or (is_sym(b) and z3.is_fp(b)):
             # IEEE-754 semantics through z3's floating-point theory
